@@ -44,7 +44,7 @@ def clean_os_environ():
     os.environ.update(keep)
 
 
-def warm(traced=TRACED, extra_traced=()):
+def warm(traced=TRACED, extra_traced=(), skip_names=()):
     """Import xonsh, load a session, install all seams.  Idempotent."""
     if _WARM:
         return _WARM
@@ -92,7 +92,7 @@ def warm(traced=TRACED, extra_traced=()):
     sx.SubprocSpec.build.__func__.__kwdefaults__["cls"] = simproc.popen_dispatch
     simproc.popen_dispatch.__name__ = "Popen"
     _k.install_threading_patches()
-    ncodes = _k.trace_modules(mods)
+    ncodes = _k.trace_modules(mods, skip=skip_names)
     # build the parser tables once, compile a trivial command
     XSH.execer.compile("echo warm\n", glbs={}, locs={}, mode="exec")
     _WARM.update(XSH=XSH, ncodes=ncodes, mods=mods)
